@@ -100,6 +100,10 @@ func (v *visitor) visit(node ast.Node) reflect.Type {
 		t = v.MapNode(n)
 	case *ast.PairNode:
 		t = v.PairNode(n)
+	case *ast.ConstantNode:
+		// Produced by the optimizer, and by patch visitors that insert
+		// precomputed values before the second type check.
+		t = reflect.TypeOf(n.Value)
 	default:
 		panic(fmt.Sprintf("undefined node type (%T)", node))
 	}
